@@ -212,6 +212,49 @@ fn staged_config(dynamic: bool, weights: &[u32], draws: u64, seed: u64, rep: &mu
     }
 }
 
+/// The dynamic list takes `usize` weights: proportionality must also hold where the weights do
+/// not fit in 32 bits (totals that still fit in a usize).
+fn dyn_usize_config(weights: &[usize], draws: u64, seed: u64, rep: &mut Report) {
+    use ec_core::operator::selector::dyn_weighted::DynWeighted;
+    use crate::common::Leaf;
+    let k = weights.len();
+    let kinds = markers(k);
+    let pop = population(k);
+    let cfg = format!("DynWeighted usize weights={weights:?}");
+    let total: u128 = weights.iter().map(|w| *w as u128).sum();
+    if total > usize::MAX as u128 {
+        return;
+    }
+    let mut d: DynWeighted<Pop> = DynWeighted::new(Leaf::new(0, kinds[0].clone()), weights[0]);
+    for i in 1..k {
+        d = d.with_selector(Leaf::new(i, kinds[i].clone()), weights[i]);
+    }
+    let mut rng = TraceRng::derive(seed, "C13-usize", fnv_str(&cfg));
+    let mut used = vec![0u64; k];
+    for dr in 0..draws {
+        take_leaf_log();
+        let out = d.sel(&pop, &mut rng);
+        let log = take_leaf_log();
+        rep.eval();
+        if log.len() != 1 || weights[log[0]] == 0 || out != SelOut::Member(log[0]) {
+            rep.violation("C13/delegation-count", || json!({"config": cfg, "draw": dr, "members_called": log, "observed": format!("{out:?}")}));
+            return;
+        }
+        used[log[0]] += 1;
+    }
+    rep.distinct(fnv_str(&cfg));
+    let mut rows = Vec::new();
+    for i in 0..k {
+        let p = weights[i] as f64 / total as f64;
+        let c = check(format!("{cfg}: member {i}"), draws, used[i], p);
+        if !c.ok {
+            rep.violation("C13/weight-ratio", || json!({"config": cfg, "member": i, "check": c.to_json(), "uses": used}));
+        }
+        rows.push(c.to_json());
+    }
+    rep.table_push("frequency_tables", json!({"config": cfg, "draws": draws, "members": rows}));
+}
+
 fn permutations_of(w: &[u32], g: &mut Xo, max: usize) -> Vec<Vec<u32>> {
     let mut out = vec![w.to_vec()];
     let mut rev = w.to_vec();
@@ -286,6 +329,23 @@ pub fn run(args: &Args) -> i32 {
         frequency_config(*shape, w, draws, mix(args.seed, i as u64), &mut rep);
         rep
     });
+    let wide: Vec<Vec<usize>> = vec![
+        vec![3 << 32, 1 << 32],
+        vec![1 << 40, 1 << 31],
+        vec![1 << 33, 0, 1 << 32, 1 << 32],
+        vec![usize::MAX / 2, usize::MAX / 4, 1],
+        vec![1 << 63, 1 << 62],
+        vec![u32::MAX as usize + 1, u32::MAX as usize],
+        vec![5, 1 << 34, 3],
+        vec![(1 << 32) + 1, (1 << 32) - 1, 2],
+    ];
+    let wd = run_shards(wide.len(), args.threads, 16 << 20, |i| {
+        let mut rep = Report::new();
+        dyn_usize_config(&wide[i], draws, mix(args.seed, 9_000 + i as u64), &mut rep);
+        rep.count("dynamic-list-usize-weights");
+        rep
+    });
+    rep.merge(wd);
     let staged: Vec<(bool, Vec<u32>)> = [
         vec![1u32, 1, 2, 4], vec![0, 3, 0, 1], vec![0, 0, 5], vec![2, 0, 0, 0, 7], vec![5, 1], vec![0, 0, 0, 1, 0], vec![1, 1000, 1],
     ]
